@@ -128,6 +128,20 @@ def orderViolation : Nat → List Col → JVMembers → JVMembers → Bool → O
                 | some iv, some ov => if sameShape iv ov then none else some ("undeclared-value-reshaped", inSub)
                 | _, _ => none) none
 
+/-- C03 "null when the input lacks them": a visible declared column that the input does not have comes out
+    as null, whatever its format and raw type. -/
+def missingColumnViolation (cols : List Col) (input output : JVMembers) : Option String :=
+  cols.findSome? fun c =>
+    match c with
+    | .leaf n f _ =>
+      if f == .hidden then none
+      else
+        match lookupJV input n, lookupJV output n with
+        | none, some .null => none
+        | none, some _ => some "missing-column-not-null"
+        | _, _ => none
+    | .sub _ _ => none
+
 /-! ### C04: lexical classes -/
 
 def isDigit (c : UInt8) : Bool := 0x30 ≤ c && c ≤ 0x39
